@@ -58,6 +58,9 @@ func (m *c17mon) secrets(s *sim.Sim) []secret {
 	}
 	for _, t := range s.Toks {
 		add(t.Token, t.Kind+"-token")
+		if esc := url.QueryEscape(t.Token); esc != t.Token {
+			add(esc, t.Kind+"-token-urlescaped") // the spelling the mailed link carries ('=' as %3D)
+		}
 		if raw, err := base64.URLEncoding.DecodeString(t.Token); err == nil && len(raw) >= 16 {
 			add(string(raw), t.Kind+"-token-raw")
 			add(base64.StdEncoding.EncodeToString(raw), t.Kind+"-token-stdb64")
@@ -369,6 +372,22 @@ var c17Templates = []sim.Template{
 			sc = append(sc, act("register", 2, -9, "", "breakjson", "comma"))
 		}
 		return sc
+	}},
+	{Name: "recovery-form-submitted-from-the-mailed-link-ends-in-an-error", F: func(s *sim.Sim) []*sim.Action {
+		if !s.Cfg.Has("recover") {
+			return nil
+		}
+		v := s.R.Intn(len(s.Accts))
+		ref := "Referer: https://site.test{mount}/recover/end?token={secret}"
+		// the browser names the page the form came from — the mailed link — as Referer; the submission fails
+		// (a pass-phrase bcrypt refuses, a storage fault), then succeeds
+		e1 := act("recover_end", 1, v, "current", "hdr", ref)
+		e1.Cls2 = "long73"
+		e2 := act("recover_end", 1, v, "current", "hdr", ref)
+		e2.Cls2 = "fresh"
+		e3 := act("recover_end", 1, v, "current", "hdr", ref)
+		e3.Cls2 = "fresh"
+		return []*sim.Action{act("recover_start", 1, v, ""), e1, act("faultnext", 1, -9, "", "op", pickS(s.R, "Save", "LoadByRecoverSelector", "hash")), e2, e3}
 	}},
 	{Name: "secret-typed-into-the-code-field", F: func(s *sim.Sim) []*sim.Action {
 		if !s.Cfg.Has("auth") || len(s.Cfg.TwoFA) == 0 {
